@@ -18,7 +18,9 @@
     settings of its query that Go's decoder does not read (`a;b=1`, a malformed escape) still there unchanged.
   * the session handed to the storage is (hint subject or "", proven client or "").
   * a request that satisfies all rules must not be rejected ("an expired hint is still accepted") - unless the storage
-    refuses to terminate the session: then rejecting is right and redirecting is not (nothing was terminated).
+    refuses to terminate the session: then rejecting is right and redirecting is not (nothing was terminated) - or the
+    storage fails to answer the lookup of the client's registration (rejecting is right; a redirect is judged as always:
+    against the registrations, and the session must have been terminated).
 -/
 import OidcModel.Spec.C02
 import OidcModel.Model.Session
@@ -41,6 +43,7 @@ structure Req where
   state : String
   malformed : Bool := false       -- the form could not be parsed / decoded at all (the fields above are then empty)
   termRefused : Bool := false     -- the storage reported a failure when it was asked to terminate the session
+  lookupRefused : Bool := false   -- the storage reported a failure when it was asked for the client's registration
 
 /-- library behaviour the statement refers to -/
 structure Orc where
@@ -167,7 +170,7 @@ def monitor (cfg : Cfg) (o : Orc) (req : Req) : Obs → Option String
   | .panic => some "panic"
   | .rejected term =>
     if !term.isEmpty then some "rejected:session-terminated"
-    else if mustAccept cfg o req && !req.termRefused then some "rejected:valid-logout-request"
+    else if mustAccept cfg o req && !req.termRefused && !req.lookupRefused then some "rejected:valid-logout-request"
     else none
   | .redirect loc dec term =>
     if req.malformed then some "malformed-request-accepted" else
